@@ -236,7 +236,28 @@ impl Previewer {
             None => PreviewEvent::Noop,
         };
 
+        #[cfg(feature = "verif")]
+        crate::verif::point(
+            "pv.send",
+            match preview_event {
+                PreviewEvent::PreviewCommand(..) => 0,
+                PreviewEvent::Noop => 2,
+                _ => 1,
+            },
+            0,
+        );
         let _ = self.tx_preview.send(preview_event);
+    }
+
+    /// the shared content buffer, for the verification harness
+    #[cfg(feature = "verif")]
+    pub fn verif_content(&self) -> Arc<SpinLock<Vec<AnsiString<'static>>>> {
+        self.content_lines.clone()
+    }
+
+    #[cfg(feature = "verif")]
+    pub fn verif_vscroll(&self) -> usize {
+        self.vscroll_offset.load(Ordering::SeqCst)
     }
 
     fn act_scroll_down(&mut self, diff: i32) {
@@ -421,9 +442,13 @@ struct PreviewThread {
 impl PreviewThread {
     fn kill(self) {
         if !self.stopped.load(Ordering::Relaxed) {
+            #[cfg(feature = "verif")]
+            crate::verif::point("pv.kill", 0, 0);
             unsafe { libc::kill(self.pid as i32, libc::SIGKILL) };
         }
         self.thread.join().expect("Failed to join Preview process");
+        #[cfg(feature = "verif")]
+        crate::verif::point("pv.joined", 0, 0);
     }
 }
 
@@ -434,6 +459,8 @@ where
     let callback = Arc::new(on_return);
     let mut preview_thread: Option<PreviewThread> = None;
     while let Ok(_event) = rx_preview.recv() {
+        #[cfg(feature = "verif")]
+        crate::verif::point("pv.recv", 0, 0);
         if preview_thread.is_some() {
             preview_thread.unwrap().kill();
             preview_thread = None;
@@ -445,12 +472,20 @@ where
         };
 
         // Try to empty the channel. Happens when spamming up/down or typing fast.
+        #[cfg(feature = "verif")]
+        let mut drained = 0;
         while let Ok(_event) = rx_preview.try_recv() {
+            #[cfg(feature = "verif")]
+            {
+                drained += 1;
+            }
             event = match _event {
                 PreviewEvent::Abort => return,
                 _ => _event,
             }
         }
+        #[cfg(feature = "verif")]
+        crate::verif::point("pv.drain", drained, 0);
 
         match event {
             PreviewEvent::PreviewCommand(preview_cmd, pos) => {
@@ -487,18 +522,27 @@ where
                             })
                         });
                         preview_thread = Some(PreviewThread { pid, thread, stopped });
+                        #[cfg(feature = "verif")]
+                        crate::verif::point("pv.spawn", 0, 0);
                     }
                 }
             }
             PreviewEvent::PreviewPlainText(text, pos) => {
                 callback(text.lines().map(|line| line.to_string().into()).collect(), pos);
+                #[cfg(feature = "verif")]
+                crate::verif::point("pv.text", 0, 0);
             }
             PreviewEvent::PreviewAnsiText(text, pos) => {
                 let mut parser = ANSIParser::default();
                 let color_lines = text.lines().map(|line| parser.parse_ansi(line)).collect();
                 callback(color_lines, pos);
+                #[cfg(feature = "verif")]
+                crate::verif::point("pv.text", 0, 0);
             }
-            PreviewEvent::Noop => {}
+            PreviewEvent::Noop => {
+                #[cfg(feature = "verif")]
+                crate::verif::point("pv.noop", 0, 0);
+            }
             PreviewEvent::Abort => return,
         };
     }
@@ -519,8 +563,12 @@ where
     if output.status.code().is_none() {
         // On Unix it means the process is terminated by a signal
         // directly return to avoid flickering
+        #[cfg(feature = "verif")]
+        crate::verif::point("pv.exit", 0, 0);
         return;
     }
+    #[cfg(feature = "verif")]
+    crate::verif::point("pv.exit", 1, 0);
 
     // Capture stderr in case users want to debug ...
     let out_str = String::from_utf8_lossy(if output.status.success() {
@@ -531,6 +579,8 @@ where
 
     let lines = out_str.lines().map(AnsiString::parse).collect();
     callback(lines);
+    #[cfg(feature = "verif")]
+    crate::verif::point("pv.cb", 0, 0);
 }
 
 #[derive(Builder, Default, Debug)]
